@@ -307,7 +307,18 @@ func TestC06Spawn(t *testing.T) {
 	runProp(t, "C06", "spawn", 1500, 30000, GenC06Spawn(), CheckC06Spawn)
 }
 
+// duplicates of genomes reached by operator histories; later actions of the history mutate source and copy at random,
+// the C01 pool keeps both, and every further duplicate is compared again
+func CheckC06History(c HistoryCase, rec *Rec) error {
+	return runHistory(c, historyChecks{c06: true}, rec)
+}
+
+func TestC06History(t *testing.T) {
+	runProp(t, "C06", "history", 1500, 30000, genHistory(pick(60, 150)), CheckC06History)
+}
+
 func init() {
+	registerReplay("C06", "history", CheckC06History)
 	registerReplay("C06", "dup", CheckC06Dup)
 	registerReplay("C06", "spawn", CheckC06Spawn)
 }
